@@ -2,6 +2,7 @@ package main
 
 import (
 	"fmt"
+	"strconv"
 	"strings"
 	"unicode"
 )
@@ -143,7 +144,13 @@ func lex(src string) ([]tok, error) {
 			if j >= len(src) {
 				return nil, fmt.Errorf("unterminated string at %d", i)
 			}
-			toks = append(toks, tok{"str", src[i+1 : j], i})
+			lit := src[i+1 : j]
+			if strings.Contains(lit, "\\") {
+				if u, err := strconv.Unquote(src[i : j+1]); err == nil {
+					lit = u
+				}
+			}
+			toks = append(toks, tok{"str", lit, i})
 			i = j + 1
 		default:
 			matched := false
@@ -590,6 +597,7 @@ type FuncContract struct {
 	Inline      bool
 	Pure        bool // no heap effect at all
 	NoSafety    bool // the zero-annotation safety sweep is not claimed for this function
+	Opaque      bool // trusted contract whose body is never examined (not even for its write/allocation summary)
 	RecvName    string
 	ParamNames  []string // including receiver first, if any
 	ResultNames []string
@@ -674,7 +682,7 @@ var declKeywords = map[string]bool{
 	"import": true, "ghost": true, "pure": true, "axiom": true, "func": true, "extern": true,
 	"requires": true, "ensures": true, "modifies": true, "allocates": true, "loop": true, "invariant": true,
 	"inline": true, "trusted": true, "monitor": true, "guards": true, "atomics": true, "heappure": true,
-	"iterates": true, "nomod": true, "ghostset": true, "iface": true, "iter": true, "callsvia": true, "fparam": true, "endfparam": true, "nosafety": true,
+	"iterates": true, "nomod": true, "ghostset": true, "iface": true, "iter": true, "callsvia": true, "fparam": true, "endfparam": true, "nosafety": true, "opaque": true,
 }
 
 // logicalLines extracts //@ lines and joins continuation lines (those not starting with a keyword).
@@ -792,7 +800,8 @@ func parseSignature(src string, fc *FuncContract) (recvType *TypeExpr, name stri
 			// either "name T" or "T"
 			save := p.p
 			first := p.next()
-			if first.kind == "id" && p.peek().kind != "op" || (first.kind == "id" && (p.isOp("*") || p.isOp("["))) {
+			isTypeKw := first.kind == "id" && (first.text == "map" || first.text == "func" || first.text == "chan" || first.text == "set" || first.text == "seq")
+			if !isTypeKw && (first.kind == "id" && p.peek().kind != "op" || (first.kind == "id" && (p.isOp("*") || p.isOp("[")))) {
 				// named result
 				fc.ResultNames = append(fc.ResultNames, first.text)
 				p.parseType()
@@ -1057,6 +1066,11 @@ func ParseContractFile(path, pkgPath, text string) (*ContractFile, error) {
 		case "trusted":
 			if cur != nil {
 				cur.Trusted = true
+			}
+		case "opaque":
+			if cur != nil {
+				cur.Trusted, cur.Opaque = true, true
+				cur.HasModifies = true
 			}
 		case "iterates":
 			if cur == nil {
